@@ -12,6 +12,9 @@ CLAIMED = {
  "C07": ("Lean 4 theorems over all op sequences of the UniqueNames/UniqueVariables state machines + op-sequence correspondence + pass-level observation",
          "Proved for every vocabulary and every request sequence: the naming loops terminate (pigeonhole + injectivity of base++str(n)), returned predicates/variables are pairwise distinct and disjoint from source and declarations (C07_fresh_pred, C07_fresh_var, C07_names_total, C07_vars_total). Tie: identical op sequences on globals.py and the model (700 quick / 30k thorough). Pass-level clauses (inputs get no new rules, invented heads are new, non-rule statements verbatim, layout metamorphosis) are observed on the real optimize; known findings D10, D15, D20, D21.",
          "Names produced outside UniqueNames (__min_0_<line>, template variables X/P/N..) are not covered by the theorems: D15 and D7 are findings; `single purpose' is semantic and decided by the equivalence checks.", "§9 C07"),
+ "C03": ("Lean 4 theorems (cycle => divergence, exit => fixpoint, totality of modelled loops, pass-order table) + NGO_VERIF trace correspondence + exception/cycle/time-out observation of the real optimize",
+         "Proved: C03_cycle_diverges (a repeated non-fixpoint state of a deterministic loop never exits), C03_exit_is_fixpoint for the model of api.optimize, C03_pass_order / C03_iteration_stages over the generated API_ORDER, termination of the naming loops. NOT proved: termination of the composed outer loop (depends on all passes and sympy). Tie: the stage sequence of the NGO_VERIF trace equals the model's schedule for each flag vector and iteration count; loop exits exactly at the first fixpoint. Observed on the real code: exceptions, repeated states (reported with the theorem as justification), time-outs (skipped, never a verdict). Known finding D22 (classical negation); five crash defects repaired by fix: commits.",
+         "No model exhibits recursion depth, sympy run time or wall time; a time-out without a repeated state is not a verdict.", "§9 C03"),
 }
 PENDING = {}
 props = [json.loads(l) for l in open(os.path.join(VERIF, "properties.jsonl"))]
